@@ -2,5 +2,6 @@
 # usage: run.sh <subcommand> [args]   e.g. run.sh check C13 quick
 cd "$(dirname "$0")" || exit 2
 export GOFLAGS=-mod=mod GOPROXY=off GOSUMDB=off GOTOOLCHAIN=local
+case " $* " in *" C18 "*) export VERIF_RACE=1;; esac
 ./build.sh 1>&2 || { echo "BUILD-FAILED (harness or /repo does not compile)" >&2; exit 2; }
 exec bin/cctpmc "$@"
